@@ -87,6 +87,9 @@ func init() {
 			if c.Index%5 == 3 {
 				p.PCrash = 100 // crash points are part of the property's quantifier
 			}
+			if c.Index%2 == 0 {
+				p.PPreempt = 15 // "pre-empted at store-call boundaries"
+			}
 			return p
 		})
 	s2Check("C04", "fault_enumeration", "runtime monitoring: device content vs applied-configuration model after PRNG fault sequences (offline, late connection, restart-with-empty-state, connection replacement); re-sync gate monitor",
@@ -96,6 +99,7 @@ func init() {
 			if c.Index%2 == 0 {
 				p.PStaleWriter = 40 // elections and re-sync bookkeeping overlap with applies
 				p.PNoWait = 70
+				p.PPreempt = 15
 			}
 			return p
 		})
@@ -123,6 +127,9 @@ func init() {
 			if c.Index%2 == 1 {
 				p.PStoreFault = 12
 			} else {
+				if c.Index%4 == 0 {
+					p.PPreempt = 15
+				}
 				p.IdleCheck = true // no injected store errors: an idle system has no retry pending that could explain progress
 			}
 			return p
@@ -136,6 +143,7 @@ func init() {
 			}
 			if c.Index%3 == 0 {
 				p.PStaleWriter = 40
+				p.PPreempt = 15
 			}
 			if c.Index%4 == 2 {
 				p.PCrash = 100 // a restarted process finds the CONTROLS relations of its previous incarnation in the topology
